@@ -953,6 +953,52 @@ func pluginExtra(t *tr) string {
 		fmt.Fprintf(&b, "/-- regenerated from `defaultConfigContainer.new`: per kind of the default value, how the config handed to fillConf\nand to the constructor is obtained ($reflect.Value = conf, $reflect.Value#1 = the addressable copy, $any = fillAddr) -/\ndef newConfigSwitch : List (String × String) :=\n  [%s]\n\n", strings.Join(rows, ",\n   "))
 	}
 
+	// the config hooks (core/plugin/pluginconfig): Lookup first, then parseConf, then creation by name; what parseConf tests
+	hk := load("github.com/yandex/pandora/core/plugin/pluginconfig")
+	for _, fn := range []string{"Hook", "FactoryHook"} {
+		fd := pluginFindDecl(hk, fn)
+		if fd == nil {
+			t.errs = append(t.errs, "pluginconfig."+fn+" not found")
+			continue
+		}
+		var rows []string
+		for _, s := range fd.Body.List {
+			if is, ok := s.(*ast.IfStmt); ok {
+				var parts []string
+				for _, bs := range is.Body.List {
+					parts = append(parts, pluginCanon(hk, fd, bs))
+				}
+				rows = append(rows, "if "+pluginCanon(hk, fd, is.Cond)+" { "+strings.Join(parts, " ; ")+" }")
+				continue
+			}
+			rows = append(rows, pluginCanon(hk, fd, s))
+		}
+		lname := "hookSteps"
+		if fn == "FactoryHook" {
+			lname = "factoryHookSteps"
+		}
+		fmt.Fprintf(&b, "/-- regenerated from core/plugin/pluginconfig func `%s` ($reflect.Type#1 = the field's type, $any = the data) -/\ndef %s : List String := [%s]\n", fn, lname, pluginQuoteList(rows))
+	}
+	if fd := pluginFindDecl(hk, "parseConf"); fd != nil {
+		var conds, deletes []string
+		ast.Inspect(fd.Body, func(n ast.Node) bool {
+			switch v := n.(type) {
+			case *ast.FuncLit:
+				return false // the fillConf closure
+			case *ast.IfStmt:
+				conds = append(conds, pluginCanon(hk, fd, v.Cond))
+			case *ast.CallExpr:
+				if id, ok := v.Fun.(*ast.Ident); ok && id.Name == "delete" {
+					deletes = append(deletes, pluginCanon(hk, fd, v))
+				}
+			}
+			return true
+		})
+		fmt.Fprintf(&b, "/-- regenerated from `parseConf`: the conditions it tests (outside the fillConf closure), what it deletes from the data -/\ndef parseConfConds : List String := [%s]\ndef parseConfDeletes : List String := [%s]\n\n", pluginQuoteList(conds), pluginQuoteList(deletes))
+	} else {
+		t.errs = append(t.errs, "pluginconfig.parseConf not found")
+	}
+
 	// engine: who calls the factories
 	eng := load("github.com/yandex/pandora/core/engine")
 	b.WriteString("/-- regenerated from core/engine: call sites of the gun / schedule factories -/\n")
